@@ -86,7 +86,14 @@ func xLen(r *core.Rng, maxLen int) int {
 	switch c := r.Intn(100); {
 	case c < 20:
 		return r.Range(1, 4)
+	case c < 74:
+		return r.Range(5, 60)
 	case c < 80:
+		// at the edges of the reader's look-ahead windows (128, 256, 512, 1024 bytes: the closing
+		// quote or tag among the last or first bytes of a window)
+		if n := r.Pick(128, 256, 256, 512, 1024) - r.Intn(9) + 2; n <= maxLen {
+			return n
+		}
 		return r.Range(5, 60)
 	case c < 92:
 		return r.Range(61, 300)
